@@ -148,8 +148,11 @@ reg("C10", ["c10_pstore.c"],
          "per configuration: reset with two fill values, full store, partial stores at (offset, length) pairs (all "
          "pairs for small sizes, boundary + seeded sample otherwise) over evolving content each followed by "
          "validate, fetch and fetch_part, out-of-range part accesses incl. offset+length pairs that wrap size_t, and "
-         "three alterations of every octet of the region. A signature is a configuration (size, placement, "
-         "checksum, aux size); evaluations counts operations checked.",
+         "three alterations of every octet of the region. 'reconf': 300 (quick) / 4000 (thorough) units of six "
+         "set-up histories each: one instance is placed and given checksum algorithms several times in seeded "
+         "order (the last placement and the last algorithm count, in either order, incl. narrowing or widening "
+         "the checksum after the last placement) before the same battery runs. A signature is a configuration "
+         "(size, placement, checksum, aux size); evaluations counts operations checked.",
     assumptions=["the medium callbacks return exactly what was asked (faults are the subject of C11)",
                  "checksum octets on the medium are native (little) endian"])
 
@@ -191,8 +194,11 @@ reg("C02", ["c02_blockwrite.c"],
          "end x every length 0..span+3 (lengths > 9 sub-sampled in quick) x word patterns {identity, acceptable value "
          "per overlapped register, bound +-1 per overlapped register, refused float encodings, random, all-ones, "
          "all-zeros}, issued in sequence so that content evolves. The caller buffer is an exact-size poisoned-arena "
-         "object, as are area storage, area[] and entry[] incl. sentinels. A signature is a table; evaluations counts "
-         "block writes judged.")
+         "object, as are area storage, area[] and entry[] incl. sentinels. Per table also requests much longer than "
+         "the table (255..0x100000 words, heap buffer) and requests that cannot be backed by memory (0x100001.."
+         "0xffffffff words, address + length reaching or passing 2^32; exact-size 256-word arena buffer), which must "
+         "be refused at the first unmapped address without effect. A signature is a table; evaluations counts block "
+         "writes judged.")
 
 reg("C03", ["c03_blockread.c"],
     rule="units = " + RT_FAMILY + " (400 tables quick, 6000 thorough). Per table (storage filled out of band with "
@@ -239,7 +245,10 @@ reg("C06", ["c06_regp_exec.c"],
          "from the reference encoder, replies go through the reference decoder. 'table': the server bound to a real "
          "register table (RW area with range/max/float registers, read-only area, callback area reporting I/O errors; "
          "also uninitialised) through regaccess2blockaccess; the expected verdict comes from calling the register API "
-         "directly on the same state. A signature is a (unit, session); evaluations counts frames processed.")
+         "directly on the same state. 'bigblock': 104 units = {serial,TCP} x {8,16-bit} x {read,write} x word counts "
+         "{129,365,1000,16383,16384,32767,32768,32769,40000,65535,65536,65537,70001} through an allocator with "
+         "300000-octet blocks, payloads compared in full. A signature is a (unit, session); evaluations counts "
+         "frames processed.")
 
 reg("C08", ["c08_regp_emit.c"],
     rule="'emit': per unit (transport x memory word size x session starting at a random sequence number or at 0xfffd) "
@@ -259,8 +268,12 @@ reg("C07", ["c07_regp_corrupt.c"], level="fault_enumeration",
          "(first and last bit flipped, all interior patterns up to length 6, three random ones beyond); every "
          "truncation length; extension by 1..4 octets. The mutation is applied to the raw frame, then SLIP-encoded. "
          "'options': on both transports 600 generated frames per unit with every combination of the three option "
-         "bits, correct or damaged checksums, one octet extra/short, and 600 arbitrary octet strings. A signature is "
-         "a unit; evaluations counts mutated/generated frames judged.",
+         "bits, correct or damaged checksums, one octet extra/short, and 600 arbitrary octet strings. 'wire': 32 "
+         "(quick) / 4000 (thorough) sessions valid request, damaged request, valid request on a serial channel served "
+         "by the loop documented in regp_recv() with one RPMaybeFrame; the damage is applied behind the SLIP encoder: "
+         "every single-bit flip of the wire octets, two-bit flips (<= 9 bits apart plus a seeded sample), bursts of "
+         "2..16 bits, every octet lost or duplicated. A signature is a unit; evaluations counts mutated/generated "
+         "frames and sessions judged.",
     assumptions=["reading choices of the reference decoder (DESIGN.md section 7, C07): a checksum field occupies a "
                  "header word only if its option bit is set; the header checksum covers the six fixed words plus the "
                  "payload-checksum word when present; an odd number of payload octets under 16-bit semantics is an "
@@ -309,7 +322,10 @@ MANIFEST_TEXT = {
              "The receiver's error classification must equal the reference decoder's (header encoding, header "
              "checksum, payload size, payload checksum, in that precedence) and the reply must be the prescribed meta "
              "message or error response. Option-bit combinations and arbitrary octet strings extend this to both "
-             "transports, including frames that declare a payload checksum without a header checksum.",
+             "transports, including frames that declare a payload checksum without a header checksum. Damage behind "
+             "the SLIP encoder (delimiters and escapes created or destroyed, so that regp_recv itself fails, splits or "
+             "merges frames) is judged per session: every backend access and every acknowledgement must belong to a "
+             "request that an independent segmentation of the damaged octets still finds intact.",
         note=SAN_NOTE),
     "C08": dict(
         technique="runtime monitoring: every emit entry point compared octet for octet with an independent reference encoder (big-endian header, bitwise CRC-16/ARC, SLIP / varint framing) and round-tripped through the library's own receiver; ASan/UBSan",
@@ -325,7 +341,8 @@ MANIFEST_TEXT = {
              "payload octets and exactly one response that the reference decoder accepts and that echoes sequence "
              "number and address with the code prescribed for the backend's verdict (payload per section 3.1 of the "
              "protocol document, octet semantics); wrong word size, responses and meta frames must leave the backend "
-             "untouched. The frame block ledger must balance after every step.",
+             "untouched. The frame block ledger must balance after every step. Frames of up to 140000 payload octets "
+             "through a large-block allocator are paired the same way with the payload compared in full.",
         note=SAN_NOTE),
     "C05": dict(
         technique="runtime monitoring: random operation histories with a reference model carried along and compared after every step (image, values, touched marks) plus an explicit invariant assertion by the model's own decoder/evaluator; out-of-band corruption + sanitise rounds; ASan/UBSan",
@@ -359,7 +376,9 @@ MANIFEST_TEXT = {
              "overlays the words on its own image, decodes and evaluates every overlapped register and derives the "
              "set of applicable (class, first address) failures; success is required iff the set is empty, and the "
              "complete storage of all areas and all touched marks are compared after every call. Where several "
-             "classes apply any of them is accepted (the statement does not rank them).",
+             "classes apply any of them is accepted (the statement does not rank them). Requests far longer than the "
+             "table, up to lengths for which address + length passes 2^32, must be refused without effect and without "
+             "reading beyond the words the caller can supply.",
         note=SAN_NOTE),
     "C01": dict(
         technique="runtime monitoring: value enumeration per type/byte order/backing/constraint against an independent codec and constraint evaluator, whole-image comparison after every call, ASan/UBSan",
@@ -383,7 +402,9 @@ MANIFEST_TEXT = {
              "after every step validate must agree with an independent checksum of the medium, fetch with the model "
              "image, and every logged medium access must lie inside the instance's region (the medium block is only "
              "that region, everything around it is poisoned). Out-of-range and size_t-wrapping part accesses must be "
-             "refused with an empty access log; a bound on medium accesses per operation decides termination.",
+             "refused with an empty access log; a bound on medium accesses per operation decides termination. Set-up "
+             "histories (re-placing and re-selecting algorithms on one instance in any order) must end in the same "
+             "layout as a fresh configuration.",
         note=SAN_NOTE),
     "C20": dict(
         technique="runtime monitoring: generated trees and exhaustive short strings against a reference reader, special long/deep/extreme inputs, allocation-ledger leak oracle, exact-size poisoned inputs under ASan/UBSan; coverage-guided libFuzzer stage with a printer-inverse oracle",
